@@ -232,6 +232,7 @@ type VC struct {
 	specUsed map[string]bool
 	oblNames map[string]int
 	ssubSeen map[string]bool
+	smokes   []*Obligation
 	lineTag  []int // block index (top frame) in which each line was emitted; -1 = unconditional
 	curBlock int
 	anc      map[int]map[int]bool // block -> set of ancestor blocks (incl. itself)
@@ -278,6 +279,12 @@ func (vc *VC) assumeG(guard, t string) {
 
 func (vc *VC) comment(s string) {
 	vc.emit("; "+strings.ReplaceAll(s, "\n", " "))
+}
+
+// smoke records a vacuity check: the assumptions up to this point (with the guard) must not be contradictory
+func (vc *VC) smoke(name string, props []string, guard string) {
+	o := &Obligation{Name: name, Func: vc.unit, Kind: "smoke", Props: props, Prefix: len(vc.lines), Guard: guard, Goal: "true", Src: "reachability (vacuity) check", vc: vc, Block: vc.curBlock, Expect: "sat"}
+	vc.smokes = append(vc.smokes, o)
 }
 
 func (vc *VC) define(prefix, sort, term string) string {
